@@ -65,6 +65,7 @@ MUTANTS = {
         ('send_order_wrong_kind', r'channel_send_order\.push\(ChannelOrder::Reliable\(channel_config\.channel_id\)\);', 'channel_send_order.push(ChannelOrder::Unreliable(channel_config.channel_id));'),
     ],
     'U19': [
+        ('version_check_dropped', r'if version_info != \*NETCODE_VERSION_INFO \{', 'if false {'),
         ('oldest_entry_overrides_free_slot', r'if !empty_entry && e\.time < min \{', 'if e.time < min {'),
         ('token_reuse_check_after_full_check', r'if !self\.find_or_add_connect_token_entry\(connect_token_entry\) \{', 'if !self.find_or_add_connect_token_entry(connect_token_entry) && false {'),
         ('expiry_off_by_one', r'if self\.current_time\.as_secs\(\) >= expire_timestamp \{', 'if self.current_time.as_secs() > expire_timestamp + 1 {'),
